@@ -66,6 +66,64 @@ CLAIMED["C09"] = dict(
     technique="exhaustive enumeration of file-graph states, each loaded by the real loader and compared with a reference graph model",
 )
 
+CLAIMED["C04"] = dict(
+    category="exploration",
+    text="Every ordered arm list of length 0..k (k as large as a per-type budget allows; 25k matrices per type quick, 250k thorough) over all patterns of nesting depth <= 2, for 18 scrutinee types, is type-checked by the real checker and, when accepted, run on every enumerated value; the oracle is brute-force value enumeration (accept iff covered; reported missing patterns denote uncovered values and cover them all when not truncated; the first matching arm is taken). Comatches: every arm list of length <= 4 over codata with 0..3 destructors.",
+    design_ref="C04",
+    note="Recursive types are enumerated to depth 3 (deeper than every pattern used). Alias patterns only with irrefutable members (the checker rejects others by design).",
+    technique="bounded-exhaustive enumeration of pattern matrices with a brute-force value-enumeration oracle",
+)
+FMT = "sources = mini corpus + 32 formatter minis + repository sources (size-limited per tier); deviations at every token gap (whitespace kinds, one parenthesised atom, one comment of 6 kinds); all 336 directive combinations on undeviated minis and 6 key configurations elsewhere; each formatter call on the real PrettyFormatter under catch_unwind in a worker with a 20 s watchdog"
+CLAIMED["C12"] = dict(
+    category="exploration",
+    text="Formatting is total and meaning-preserving: " + FMT + "; oracle: no unwind or hang, the output parses, and the desugared structure (bitter arena printed without ids/spans) of output and input are equal.",
+    design_ref="C12",
+    note="The structural comparison trusts bitter/fmt.rs (the repository's desugared-term printer) as a faithful serialiser; it shares no code with pretty.rs, the code under test.",
+    technique="bounded-exhaustive enumeration of layout deviations x directive configurations with a reparse-and-desugar oracle",
+)
+CLAIMED["C13"] = dict(
+    category="exploration",
+    text="Formatting never loses source text: " + FMT + ", with each of the 6 comment kinds inserted at every visited token gap; oracle = independent hand-written scanner on input and output: identical ordered comment lists, and every name/literal token accounted for.",
+    design_ref="C13",
+    note="Comment position is checked only as order (the conservative reading); float literals are compared by value (the printer respells them).",
+    technique="exhaustive comment insertion at token gaps with an independent-scanner oracle",
+)
+CLAIMED["C14"] = dict(
+    category="exploration",
+    text="Formatting is idempotent and canonical: " + FMT + "; oracle: fmt(fmt(x)) == fmt(x) bytewise, exactly one trailing newline, and horizontal-spacing / redundant single-line parenthesis deviations format to the same bytes as the undeviated source.",
+    design_ref="C14",
+    note="The `fmt --check` consistency clause is exercised through C16's process-level fmt runs; parenthesis canonicity only at widths >= 80 (single-line groups).",
+    technique="bounded-exhaustive enumeration of layout deviations x directive configurations with a double-format oracle",
+)
+CLAIMED["C15"] = dict(
+    category="model_checking",
+    text="Stateless exploration of every history of <= 3 (thorough: 4) session operations (set_overlay, clear_overlay, write+refresh_disk, delete+refresh_disk over 4 interdependent files and 13 content variants; 34 operations) on a real long-lived CompilerSession, in three observation schedules (after every step, only at the end, with an analysis of the other root in between); after each observation a fresh session over the same directory and overlays must give the same graph, verdict, report messages and spans, query results and run result. 114k histories / 340k operations in the quick tier.",
+    design_ref="C15",
+    note="No state merging (memo state is history dependent). check_resolved is not in the alphabet yet.",
+    technique="exhaustive enumeration of operation histories on the implementation with a fresh-session differential oracle",
+)
+CLAIMED["C16"] = dict(
+    category="exploration",
+    text="The real zydeco binary, one fresh process per (file, command, instance): compile/builtin fixtures x {check, run, build -t zir|zasm|asm|llvm}, fail/exec fixtures x {check, fmt}, multi-error programs x check; instances = hash seeds owned through an LD_PRELOAD getrandom interposer plus one run without ASLR; stdout, stderr and exit status must be byte-identical across instances.",
+    design_ref="C16",
+    note="A bounded enumeration of the hash-seed space (4 quick / 16 thorough), not of all iteration orders; address dependence only probed by ASLR on/off.",
+    technique="enumeration of hash seeds per process (owned nondeterminism) with a byte-identity oracle across instances",
+)
+CLAIMED["C18"] = dict(
+    category="exploration",
+    text="Every accepted program of " + UNI + " is lowered stage by stage under catch_unwind (stack IR, closure conversion, assembly, renderers, AMD64 ELF/Mach-O, LLVM for 4 triples) and the SPSLow program is re-validated by an independent harness validator (closed root, blocks closed over their own label, unique labels, stack lets only around coproduct matches, unique comatch tags, sane product layouts, externs in the builtin table); emitted AMD64 text must not define a label twice.",
+    design_ref="C18",
+    note="Assembly-arena validation is limited to what the emitted text shows; the backend's unsupported pattern fragment is a known finding.",
+    technique="bounded-exhaustive program enumeration through the real lowering pipeline with independent IR re-validation",
+)
+CLAIMED["C19"] = dict(
+    category="translation_validation",
+    text="Every accepted program of " + UNI + " is converted to first-order SPS by the real pipeline and run on the harness's SPSLow reference machine (layout-aware flat products, blocks closed over their own label, name-checked tags, host operations = the repository's implementations reached through the interpreter's Prim step); output and result must equal the interpreter's.",
+    design_ref="C19",
+    note="The machine is new code validated by mass agreement on the unchanged tree; native execution is unavailable offline.",
+    technique="bounded-exhaustive program enumeration with per-program translation validation on a reference machine for the target IR",
+)
+
 NOT_YET = {}
 
 def main():
